@@ -50,7 +50,7 @@ def run(prop, tier, seed, scratch, replay=None):
                        timeout=3400 if tier == "thorough" else 600)
     vlib.require_tlc_ok(bfs, "exhaustive exploration")
     cfgtext = open(os.path.join(vlib.SPEC, cfg)).read()
-    required = [x for x in ("Receive", "Mine", "Lock", "Send", "SendExplicit", "FundOwn", "DryRun", "Restart", "RestartRej") if '"%s"' % x in cfgtext]
+    required = [x for x in ("Receive", "Mine", "Lock", "Send", "SendExplicit", "FundOwn", "DryRun", "Restart", "RestartRej", "Resync", "ResyncRej") if '"%s"' % x in cfgtext]
     if '"SendExplicit"' in cfgtext:
         required.append("SendDup")
     if '"Lock"' in cfgtext:
